@@ -163,10 +163,31 @@ theorem orderWMedianP_ok (maxiter : Nat) (g g2 : G) (x : Nat) (h : orderWMedianP
     obtain ⟨g1, x1⟩ := r
     simp only [ho, bind, Except.bind] at h
     by_cases hs : sameLayers g.layers g1.layers = true
-    · simp only [hs, Bool.not_true, Bool.false_eq_true, if_false, pure, Except.pure, Except.ok.injEq, Prod.mk.injEq] at h
-      exact ⟨g1, by rw [h.2], hs, h.1.symm⟩
+    · simp only [hs, Bool.not_true, Bool.false_eq_true, if_false] at h
+      split at h
+      · simp [throw, throwThe, MonadExceptOf.throw] at h
+      · simp only [pure, Except.pure, Except.ok.injEq, Prod.mk.injEq] at h
+        exact ⟨g1, by rw [h.2], hs, h.1.symm⟩
     · have hs' : sameLayers g.layers g1.layers = false := by simpa using hs
       simp [hs', throw, throwThe, MonadExceptOf.throw] at h
+
+/-- … and that result is an order: every layer list is sorted by LayerPos 0..k−1 and holds the nodes of its own layer -/
+theorem orderWMedianP_ordered (maxiter : Nat) (g g2 : G) (x : Nat) (h : orderWMedianP maxiter g = .ok (g2, x)) :
+    orderedOK g2 = true := by
+  unfold orderWMedianP at h
+  cases ho : orderWMedian maxiter g with
+  | error e => simp [ho, bind, Except.bind] at h
+  | ok r =>
+    obtain ⟨g1, x1⟩ := r
+    simp only [ho, bind, Except.bind] at h
+    split at h
+    · simp [throw, throwThe, MonadExceptOf.throw] at h
+    · split at h
+      · simp [throw, throwThe, MonadExceptOf.throw] at h
+      · rename_i hok
+        simp only [pure, Except.pure, Except.ok.injEq, Prod.mk.injEq] at h
+        rw [← h.1]
+        simpa using hok
 
 /-- the ordering phase of the composed model keeps the node table -/
 theorem statEq_orderWMedianP (maxiter : Nat) (g g' : G) (h : (orderWMedianP maxiter g).map (·.1) = .ok g') : StatEq g g' := by
